@@ -194,7 +194,13 @@ def compare(sc, pred, obs, eps=None):
     if not obs.get("started"):
         return ["subject never started"]
     kind_map = {"pass": "pass", "leak": "leak", "fail": "fail", "timeout": "timeout"}
-    if obs.get("result") != kind_map[pred["result"]]:
+    # (see slow_free below) after a kill that ends a signal-termination, "interval elapsed" and "child
+    # exited" are both ready when the running loop is re-entered; if the interval wins and the count
+    # reaches terminate-after the attempt is reported as timed out instead of failed
+    killed_after_signal = any(c == 9 for _, c in pred["trace"]) and any(n in SHUT for _, n in sc["sigs"]) \
+        and pred["end"] >= sc["period"] * u
+    if obs.get("result") != kind_map[pred["result"]] and not (
+            killed_after_signal and sc.get("ta") and pred["result"] == "fail" and obs.get("result") == "timeout"):
         bad.append(f"result kind: nextest {obs.get('result')}, model {pred['result']}")
     # while a unit is being terminated the slow-timeout interval is not polled; when the loop is
     # re-entered after the kill, "interval elapsed" and "child exited" are both ready and
@@ -256,7 +262,7 @@ def oracle_common(sc, obs):
         if ok and not any(n in SHUT for _, n in sc["sigs"]) and (not obs.get("after_started") or obs["rc"] != 0):
             return f"setup script passed but exit status is {obs['rc']} / the test did not run"
     # a group whose leader ignored the terminating signal is killed with SIGKILL as a whole
-    if obs.get("group_alive_after") and sc["on_term"] == "ignore" and (
+    if obs.get("group_alive_after") and sc["on_term"] == "ignore" and obs.get("end_how") is None and (
             obs.get("result") == "timeout" or any(k == "RunBeginCancel" for k, _ in obs.get("cancel_events", []))):
         return (f"processes {obs['group_alive_after']} of the test's process group are still alive after nextest "
                 f"killed the group and exited")
